@@ -27,9 +27,10 @@ func (db *memoryDB) NewIterator(prefix []byte, start []byte) (database.Iterator,
 
 	var keys []string
 
-	// Collect all keys in the range [start, end)
+	// Collect all keys with the prefix, starting at prefix+start (inclusive)
+	prefixString := string(prefix)
 	for key := range db.data {
-		if !strings.HasPrefix(key, startString) {
+		if !strings.HasPrefix(key, prefixString) {
 			continue
 		}
 		if strings.Compare(key, startString) >= 0 {
